@@ -26,6 +26,7 @@ func init() {
 		"m.verify":   exMVerify,
 		"go.m.sign":  goMSign,
 		"go.m.limit": goMLimit,
+		"go.m.modes": goMModes,
 	})})
 }
 
@@ -168,8 +169,19 @@ func (s sendSpec) sendable() wallet.Sendable {
 	return m
 }
 
+// requestedMode: the send mode the caller asked for — the Mode field of a wallet.Message (every value 0..255 is a
+// legitimate request, 0 included), and the documented default 3 for a SimpleTransfer, which has no mode field.
+func (s sendSpec) requestedMode() uint8 {
+	if s.kind == "s" {
+		return 3
+	}
+	return s.mode
+}
+
+// raw: the internal message cell as ToInternal + Marshal produce it, paired with the REQUESTED mode (not with the
+// mode ToInternal returns: that one is under test).
 func (s sendSpec) raw() wallet.RawMessage {
-	msg, mode, err := s.sendable().ToInternal()
+	msg, _, err := s.sendable().ToInternal()
 	if err != nil {
 		panic(err)
 	}
@@ -177,7 +189,15 @@ func (s sendSpec) raw() wallet.RawMessage {
 	if err := tlb.Marshal(c, msg); err != nil {
 		panic(err)
 	}
-	return wallet.RawMessage{Message: c, Mode: mode}
+	return wallet.RawMessage{Message: c, Mode: s.requestedMode()}
+}
+
+// modeChoice: the send modes with a meaning of their own, and random ones
+func modeChoice(g *h.G) uint8 {
+	if g.Rng.Intn(3) == 0 {
+		return uint8(g.Rng.Intn(256))
+	}
+	return []uint8{0, 1, 2, 3, 64, 128, 255}[g.Rng.Intn(7)]
 }
 
 func vuTime(vu string) time.Time { return time.Unix(atoi64(vu), 0) }
@@ -596,6 +616,83 @@ func checkDecodedFields(ver wallet.Version, w wallet.Wallet, msgTable, wcS, subS
 	return ""
 }
 
+// go.m.modes <ver> <seed> <specs>: every construction path carries exactly the requested send modes (0 included) and
+// the requested messages, in order: Send (Sendable -> ToInternal -> SendV2), CreateMessageBody (Sendable -> ToInternal),
+// and RawSend with RawMessage values.
+func goMModes(a []string) string {
+	ver := wallet.Version(atoi(a[0]))
+	var specs []sendSpec
+	var ss []wallet.Sendable
+	var want []wallet.RawMessage
+	for _, x := range strings.Split(a[2], ";") {
+		sp := parseSpec(x)
+		specs = append(specs, sp)
+		ss = append(ss, sp.sendable())
+		want = append(want, sp.raw())
+	}
+	check := func(path string, msg *boc.Cell) string {
+		got, err := wallet.ExtractRawMessages(ver, msg)
+		if err != nil {
+			return "FAIL " + path + "-extract-err"
+		}
+		if len(got) != len(want) {
+			return fmt.Sprintf("FAIL %s-count got=%d want=%d", path, len(got), len(want))
+		}
+		for i := range got {
+			if got[i].Mode != want[i].Mode {
+				return fmt.Sprintf("FAIL %s-mode-changed message=%d requested=%d sent=%d", path, i, want[i].Mode, got[i].Mode)
+			}
+			if hashOrNil(got[i].Message) != hashOrNil(want[i].Message) {
+				return fmt.Sprintf("FAIL %s-message-changed message=%d", path, i)
+			}
+		}
+		return ""
+	}
+	// 1. Send
+	chain := &scriptedChain{state: acctState("none")}
+	w, err := wallet.New(keyFromSeed(a[1]), ver, chain)
+	if err != nil {
+		return "FAIL new"
+	}
+	if err := w.Send(context.Background(), ss...); err != nil {
+		return "FAIL send-refused"
+	}
+	if len(chain.sent) != 1 {
+		return "FAIL send-count"
+	}
+	cells, err := boc.DeserializeBoc(chain.sent[0])
+	if err != nil || len(cells) != 1 {
+		return "FAIL send-payload"
+	}
+	if r := check("send", cells[0]); r != "" {
+		return r
+	}
+	// 2. CreateMessageBody, wrapped into an external message by hand
+	body, err := w.CreateMessageBody(wallet.MessageConfig{Seqno: 7, ValidUntil: time.Unix(1800000000, 0), V5MsgType: wallet.V5MsgTypeSignedExternal}, ss...)
+	if err != nil {
+		return "FAIL create-body"
+	}
+	self := w.GetAddress()
+	env := rebuildExt(&sentInfo{destWc: int8(self.Workchain), destAddr: self.Address}, body)
+	if r := check("create-body", env); r != "" {
+		return r
+	}
+	// 3. RawSend with the requested modes given directly
+	chain2 := &scriptedChain{}
+	w2, _ := wallet.New(keyFromSeed(a[1]), ver, chain2)
+	if err := w2.RawSend(context.Background(), 7, time.Unix(1800000000, 0), want, nil); err != nil || len(chain2.sent) != 1 {
+		return "FAIL rawsend-refused"
+	}
+	cells2, err := boc.DeserializeBoc(chain2.sent[0])
+	if err != nil || len(cells2) != 1 {
+		return "FAIL rawsend-payload"
+	}
+	if r := check("rawsend", cells2[0]); r != "" {
+		return r
+	}
+	return "ok"
+}
+
 // go.m.limit <ver> <seed> <n>: more messages than the version allows are refused and nothing is sent; exactly the
 // maximum is accepted.
 func goMLimit(a []string) string {
@@ -641,7 +738,7 @@ func genSpec(g *h.G) sendSpec {
 	s.wc = int32(g.Pick(0, -1, 0, 0))
 	copy(s.addr[:], g.Bytes(32))
 	s.bounce = g.Rng.Intn(2) == 0
-	s.mode = uint8(g.Rng.Intn(256))
+	s.mode = modeChoice(g)
 	if s.kind == "s" {
 		s.mode = wallet.DefaultMessageMode
 	}
@@ -716,7 +813,7 @@ func genC14(g *h.G) {
 					specs = append(specs, sp.String())
 					raws = append(raws, sp.raw())
 				} else {
-					raws = append(raws, wallet.RawMessage{Message: randRawCell(g), Mode: byte(g.Rng.Intn(256))})
+					raws = append(raws, wallet.RawMessage{Message: randRawCell(g), Mode: modeChoice(g)})
 				}
 			}
 			init := g.Rng.Intn(3) == 0
@@ -805,6 +902,25 @@ func genC14(g *h.G) {
 				}
 				g.Emit("m.decode", vs, t2)
 			}
+		}
+		// send modes on every construction path: all the distinguished modes, each through wallet.Message, plus
+		// SimpleTransfer (default mode) and random mixes
+		for _, md := range []uint8{0, 1, 2, 3, 64, 128, 255} {
+			sp := genSpec(g)
+			sp.kind, sp.mode, sp.commentLen = "m", md, sp.commentLen%100
+			sp2 := genSpec(g)
+			sp2.commentLen %= 100
+			g.Count(fmt.Sprintf("modes_path_mode_%d", md))
+			g.Emit("go.m.modes", vs, h.Hex(g.Bytes(32)), sp.String()+";"+sp2.String())
+		}
+		for i := 0; i < g.Scale(6, 120); i++ {
+			var xs []string
+			for j := 0; j < 1+g.Rng.Intn(4); j++ {
+				sp := genSpec(g)
+				sp.commentLen %= 150
+				xs = append(xs, sp.String())
+			}
+			g.Emit("go.m.modes", vs, h.Hex(g.Bytes(32)), strings.Join(xs, ";"))
 		}
 		// limits
 		for _, n := range []int{max, max + 1, max + 50} {
